@@ -115,7 +115,7 @@ std::vector<std::string>& split(std::vector<std::string>* into,
 
     tlx::string_view::const_iterator it = str.begin(), last = it;
 
-    for (; it + sep.size() < str.end(); ++it)
+    for (; static_cast<size_t>(str.end() - it) >= sep.size(); ++it)
     {
         if (std::equal(sep.begin(), sep.begin() + sep.size(), it))
         {
@@ -127,6 +127,8 @@ std::vector<std::string>& split(std::vector<std::string>* into,
 
             into->emplace_back(last, it);
             last = it + sep.size();
+            // continue scanning behind the separator
+            it = last - 1;
         }
     }
 
